@@ -76,6 +76,148 @@ def norm_stmt(node):
     return ' '.join(txt.split())[:200]
 
 
+# ---------------------------------------------------------------------------
+# comparison modulo consistent renaming of locals
+# ---------------------------------------------------------------------------
+
+def _bound_names(fnode):
+    """parameters and names bound in a function body (own scope; nested defs contribute their name only)"""
+    out = set()
+    a = fnode.args
+    for x in a.posonlyargs + a.args + a.kwonlyargs:
+        out.add(x.arg)
+    if a.vararg:
+        out.add(a.vararg.arg)
+    if a.kwarg:
+        out.add(a.kwarg.arg)
+    glob = set()
+    stack = list(fnode.body) if not isinstance(fnode, ast.Lambda) else [fnode.body]
+    while stack:
+        n = stack.pop()
+        if isinstance(n, (ast.FunctionDef, ast.AsyncFunctionDef, ast.ClassDef)):
+            out.add(n.name)
+            continue
+        if isinstance(n, ast.Global):
+            glob |= set(n.names)
+        if isinstance(n, ast.Name) and isinstance(n.ctx, (ast.Store, ast.Del)):
+            out.add(n.id)
+        if isinstance(n, ast.ExceptHandler) and n.name:
+            out.add(n.name)
+        if isinstance(n, ast.Lambda):
+            for x in n.args.args:
+                out.add(x.arg)
+        stack.extend(ast.iter_child_nodes(n))
+    return out - glob
+
+
+class _Alpha(ast.NodeTransformer):
+    def __init__(self, names):
+        self.names = names
+        self.map = {}
+
+    def ph(self, nm):
+        if nm not in self.names:
+            return nm
+        if nm not in self.map:
+            self.map[nm] = '_%d' % (len(self.map) + 1)
+        return self.map[nm]
+
+    def visit_Name(self, node):
+        node.id = self.ph(node.id)
+        return node
+
+    def visit_arg(self, node):
+        node.arg = self.ph(node.arg)
+        return node
+
+    def visit_ExceptHandler(self, node):
+        if node.name:
+            node.name = self.ph(node.name)
+        self.generic_visit(node)
+        return node
+
+    def visit_FunctionDef(self, node):
+        node.name = self.ph(node.name)
+        self.generic_visit(node)
+        return node
+
+    def visit_Nonlocal(self, node):
+        node.names = [self.ph(x) for x in node.names]
+        return node
+
+
+def alpha_texts(nodes, fnode_chain=(), drop_docstring=True, extra_names=None):
+    """texts of the statements/expressions `nodes` with every name that is local to one of the functions in
+    fnode_chain (or bound inside the nodes themselves: comprehension variables, lambda parameters) replaced by
+    a placeholder numbered in order of first occurrence over the whole list: two fragments that differ only
+    by a consistent renaming of locals/parameters/local helpers give the same texts"""
+    names = set(extra_names or ())
+    for fn in fnode_chain:
+        names |= _bound_names(fn)
+    for n in nodes:
+        for x in ast.walk(n):
+            if isinstance(x, ast.Name) and isinstance(x.ctx, (ast.Store, ast.Del)):
+                names.add(x.id)
+            elif isinstance(x, ast.Lambda):
+                for a in x.args.args:
+                    names.add(a.arg)
+            elif isinstance(x, (ast.FunctionDef, ast.AsyncFunctionDef)):
+                names |= _bound_names(x)
+    tr = _Alpha(names)
+    out = []
+    for n in nodes:
+        if drop_docstring and isinstance(n, ast.Expr) and isinstance(n.value, ast.Constant) and isinstance(n.value.value, str):
+            continue
+        # a clean copy (the analysed trees carry parent pointers: never deepcopy them)
+        c = ast.parse(ast.unparse(n)).body[0]
+        if isinstance(n, ast.expr):
+            c = c.value
+        if drop_docstring:
+            for x in ast.walk(c):
+                if isinstance(x, (ast.FunctionDef, ast.AsyncFunctionDef, ast.ClassDef)) and x.body and isinstance(x.body[0], ast.Expr) \
+                        and isinstance(x.body[0].value, ast.Constant) and isinstance(x.body[0].value.value, str):
+                    x.body = x.body[1:] or [ast.Pass()]
+        c = tr.visit(c)
+        out.append(' '.join(ast.unparse(c).split()))
+    return out
+
+
+def alpha_body(fnode):
+    """alpha-normalised statement texts of a function body (docstring dropped)"""
+    return alpha_texts(list(fnode.body), [fnode])
+
+
+def alpha_src(src):
+    """alpha_body of a reference definition given as source text: `def f(self): ...`"""
+    import textwrap
+    t = ast.parse(textwrap.dedent(src))
+    return alpha_body(t.body[0])
+
+
+def func_chain(func):
+    out = []
+    f = func
+    while f is not None and hasattr(f, 'node'):
+        out.append(f.node)
+        f = f.parent
+    return out
+
+
+def alpha_stmt(node, func):
+    """alpha-normalised head text of one statement in the context of its function (finding keys that survive renames)"""
+    chain = func_chain(func) if func is not None and hasattr(func, 'node') else []
+    if isinstance(node, (ast.For, ast.While, ast.If, ast.With, ast.Try, ast.FunctionDef, ast.ClassDef)):
+        n = copy.copy(node)
+        for fld in ('body', 'orelse', 'finalbody', 'handlers'):
+            if hasattr(n, fld):
+                setattr(n, fld, [ast.Pass()] if fld == 'body' else [])
+        if isinstance(n, ast.Try):
+            n.handlers = [ast.ExceptHandler(type=None, name=None, body=[ast.Pass()])]
+        txt = alpha_texts([n], chain, drop_docstring=False)[0]
+        return txt[:200]
+    return alpha_texts([node], chain, drop_docstring=False)[0][:200]
+
+
 class Module:
     def __init__(self, name, path, relpath):
         self.name = name
